@@ -7,7 +7,8 @@
 // (svc.Alloc). Histories of calls over an in-process pipe session and an
 // in-process HTTP handler — success, handler error, panic, cancel, client
 // walking away, castable / non-castable / half-castable input, init failures,
-// refused parameters, response caps, externalised results, inputs and
+// refused parameters, a stream header / unary result that fails to serialise
+// part-way, response caps, externalised results, inputs and
 // requests resolved from external storage (one batch, several batches, log
 // first, missing object, pointer loop), second emit, finish with data, and a
 // server-side writer that fails at byte N — are replayed sequentially in
@@ -72,7 +73,7 @@ func main() {
 	if !leakBuild {
 		r.Fatal("built without -tags leakcheck: set VARIANT=leak in check.conf")
 	}
-	r.SetRule("history i = transport (pipe session / HTTP handler, alternating) x server config (plain, dispatch hook, external storage with a 96-byte threshold, with zstd, max_response_bytes, max_externalized_response_bytes, producer batch limit) x 1..6 calls; first call's class = class list[(i/2) mod 36] (quota by construction), the rest uniform over 36 classes: unary value/void/error/panic/parameter mismatch/unknown method/0 and 2 rows/extra batch/describe/oversized result/request via external storage; streams complete/failing turn (error, panic, no emit, second emit)/finish variants/cancel with and without OnCancel/client walks away/castable, non-castable and half-castable input/init error, panic, nil, wrong state/parameter mismatch/oversized turns/exchange input via external storage (one batch, several, log first, missing, pointer loop)/request via external storage; every 9th history has a server-side writer failing at byte N; the allocators are compared before/after every call; distinct = transport x config x class sequence")
+	r.SetRule("history i = transport (pipe session / HTTP handler, alternating) x server config (plain, dispatch hook, external storage with a 96-byte threshold, with zstd, max_response_bytes, max_externalized_response_bytes, producer batch limit) x 1..5 calls; first call's class = class list[(i/2) mod 42] (quota by construction), the rest uniform over 42 classes: unary value/void/error/panic/parameter mismatch/unknown method/0 and 2 rows/extra batch/describe/oversized result/request via external storage; streams complete/failing turn (error, panic, no emit, second emit)/finish variants/cancel with and without OnCancel/client walks away/castable, non-castable and half-castable input/init error, panic, nil, wrong state/parameter mismatch/oversized turns/exchange input via external storage (one batch, several, log first, missing, pointer loop)/request via external storage/stream header (an ArrowSerializable value with four fields) that serialises, or fails at its 1st, 2nd or 3rd field, and the same value as a unary result; every 9th history has a server-side writer failing at byte N; the allocators are compared before/after every call; distinct = transport x config x class sequence")
 	r.Assume("allocations arrow-go makes with its own default allocator (ipc.NewReader inside ReadRequest / the input stream reader) are invisible to the checked allocator; only what the framework allocates through defaultAllocator() and what handlers hand over through Emit is accounted")
 	r.Assume("quiescence: a pipe call is complete when the serving goroutine is parked reading an empty request pipe (or the serve loop returned); an in-process HTTP call when ServeHTTP returned")
 	req := []string{"transport.pipe", "transport.http", "config.pipe.external-storage", "config.http.external-storage", "config.http.max-response-bytes",
@@ -83,17 +84,20 @@ func main() {
 		"observed.http.cap-refusal.response", "observed.http.cap-refusal.external",
 		"observed.pipe.cast-accepted", "observed.http.cast-accepted", "observed.pipe.cast-refused", "observed.http.cast-refused", "observed.pipe.cast-refused-after-first-column-cast", "observed.http.cast-refused-after-first-column-cast", "observed.pipe.cast-refused-misnamed-after-first-column-cast", "observed.http.cast-refused-misnamed-after-first-column-cast",
 		"observed.pipe.cancel-delivered", "observed.http.cancel-delivered", "observed.pipe.second-emit-refused-batch-returned", "observed.http.second-emit-refused-batch-returned",
-		"observed.pipe.write-fault-fired.unary", "observed.pipe.write-fault-fired.stream", "observed.http.write-fault-fired"}
+		"observed.pipe.write-fault-fired.unary", "observed.pipe.write-fault-fired.stream", "observed.http.write-fault-fired",
+		"observed.pipe.serializable-value-delivered", "observed.http.serializable-value-delivered",
+		"observed.pipe.serialisation-failed-at-first-field", "observed.http.serialisation-failed-at-first-field",
+		"observed.pipe.serialisation-failed-after-earlier-fields-built", "observed.http.serialisation-failed-after-earlier-fields-built"}
 	for _, c := range allClasses {
 		req = append(req, "call.pipe."+c, "call.http."+c)
 	}
 	r.Require(req...)
 
-	n := r.N(432, 12960)
-	per := 18
+	n := r.N(504, 12936)
+	per := 21
 	workers := 6
 	if r.Thorough() {
-		workers, per = min(16, runtime.NumCPU()), 135
+		workers, per = min(16, runtime.NumCPU()), 132
 	}
 	var jobs [][2]int
 	for from := 0; from < n; from += per {
